@@ -7,7 +7,7 @@
 namespace PonyVerif.Model.Aggr
 
 /-- order-preserving de-duplication (SELECT DISTINCT keeps one copy of each value) -/
-def dedup : List Int → List Int
+def dedup [DecidableEq α] : List α → List α
   | [] => []
   | x :: xs => if x ∈ dedup xs then dedup xs else x :: dedup xs
 
@@ -42,5 +42,39 @@ def bulkDelete (rows : List α) (selected : α → Bool) : List α × Nat :=
 
 /-- `q.first()` = ORDER BY + LIMIT 1 -/
 def firstOrdered (rows : List α) (le : α → α → Bool) : Option α := ((rows.mergeSort le).take 1).head?
+
+/-- `AVG([DISTINCT] col)` kept exact as (sum, number of operands); NULL (Python `None`) for no operand.
+    Pony returns the float `sum / n`. -/
+def sqlAvg (col : List (Option Int)) (distinct : Bool) : Option (Int × Nat) :=
+  match operand col distinct with
+  | [] => none
+  | l => some (l.sum, l.length)
+
+/-- `GROUP_CONCAT(col, sep)` over a nullable string column: the non-NULL values joined by `sep`, NULL for none
+    (Python: `sep.join(x for x in R if x is not None)`, `None` for an empty result). -/
+def groupConcat (col : List (Option String)) (sep : String) : Option String :=
+  match col.filterMap id with
+  | [] => none
+  | l => some (sep.intercalate l)
+
+/-- multiset inclusion of `res` in `R` -/
+def subBag : List Int → List Int → Bool
+  | [], _ => true
+  | x :: xs, R => R.contains x && subBag xs (R.erase x)
+
+/-- the acceptable outcomes of `q.random(n)` on a query whose full result is `R`:
+    `min n |R|` rows, each row of `R` used at most as often as it occurs -/
+def isSample (R res : List Int) (n : Nat) : Bool := res.length == min n R.length && subBag res R
+
+/-- comparison by an integer key (ORDER BY key ASC) -/
+def byKey (k : α → Int) : α → α → Bool := fun x y => decide (k x ≤ k y)
+
+/-- `q.order_by(a).order_by(b)`: Pony PREPENDS the newer criterion (`order[:0] = new_order`), i.e. ORDER BY b, a;
+    on lists: stable sort by `a`, then stable sort by `b` (Python `sorted(sorted(R, key=a), key=b)`) -/
+def orderChain (R : List α) (a b : α → Int) : List α := (R.mergeSort (byKey a)).mergeSort (byKey b)
+
+/-- the SQL meaning of `ORDER BY b, a` -/
+def LexSorted (a b : α → Int) (S : List α) : Prop :=
+  S.Pairwise (fun x y => b x < b y ∨ (b x = b y ∧ a x ≤ a y))
 
 end PonyVerif.Model.Aggr
